@@ -357,7 +357,7 @@ func checkC10(c C10Case) Verdict {
 	}
 	v = cloneCmds(c.Cmds)
 	mm := theMsg(v)
-	if mm.Body[0].K == "plural" {
+	if len(mm.Body) > 0 && mm.Body[0].K == "plural" {
 		mm.Body[0].Else = append(mm.Body[0].Else, txt(" extra"))
 	} else {
 		mm.Body = append(mm.Body, txt(" extra"))
@@ -365,7 +365,7 @@ func checkC10(c C10Case) Verdict {
 	if err := differs("text appended", v); err != nil {
 		return bad(true, "%v", err)
 	}
-	if msg.Body[0].K == "plural" {
+	if len(msg.Body) > 0 && msg.Body[0].K == "plural" {
 		v = cloneCmds(c.Cmds)
 		pl := &theMsg(v).Body[0]
 		pl.Branches = append(pl.Branches, ref.Branch{Int: 7, Body: []ref.Cmd{txt("seven")}})
@@ -426,11 +426,11 @@ func checkC10(c C10Case) Verdict {
 			suffixed = true
 		}
 	}
-	res := ok(suffixed || msg.Body[0].K == "plural")
+	res := ok(suffixed || len(msg.Body) > 0 && msg.Body[0].K == "plural")
 	if suffixed {
 		res.Classes = append(res.Classes, "same-base-name placeholders")
 	}
-	if msg.Body[0].K == "plural" {
+	if len(msg.Body) > 0 && msg.Body[0].K == "plural" {
 		res.Classes = append(res.Classes, "plural")
 	}
 	if msg.Meaning != "" {
